@@ -43,7 +43,8 @@ CLAIMS = {
              "prev_recv := recv and the recorded delay; counters start at 0 and advance by exactly 1 per tick / selection and stamp seq_in; ts_start >= "
              "ts_end_prev; the group handed to a step is the tail slice in arrival order with fields (seq_out, ts_sent, ts_recv, payload), every element "
              "is pushed in order, push rolls by -1 and stores at -1; the record filter keeps seq_in <= last recorded step; the episode filter dominates "
-             "every mutation. Not decided: wall-clock timing, that the future guard waits long enough under every delay distribution.",
+             "every mutation; every queue has its reference producer / consumer functions (nothing bypasses the selection); the BUFFER expected arrival uses "
+             "the connection's own phase, read at every episode start. Not decided: wall-clock timing, that the future guard waits long enough under every delay distribution.",
         ref="§5 C03"),
     "C04": dict(
         technique="value numbering to max-plus normal forms (ast dataflow), compared with the reference recurrence per configuration valuation",
@@ -65,8 +66,9 @@ CLAIMS = {
              "node resets, startup, wait, start; run_supervisor resolves the action exactly once; every append is followed on every path by a trigger "
              "of a function that pops that queue, every popleft is length-guarded; every attribute mutated by task code is unconditionally "
              "re-initialised on the start path (fresh deques, counters/drift/FIFO clamp to 0, episode counter first); the episode filter dominates "
-             "every mutation in the header-receiving entries; start() blocks only on the startup futures; the step is handed seq / ts = the episode's own "
-             "tick and scheduled start. Not decided: user startup/stop/step terminating, wall-clock starvation.",
+             "every mutation in the header-receiving entries; start() blocks only on the startup futures and takes the time origin after them; the step is handed seq / ts = the episode's own "
+             "tick and scheduled start; the lifecycle tasks reach their target state on every path; attributes of the wrapped node cleared at the end of an "
+             "episode are restored at every episode start. Not decided: user startup/stop/step terminating, wall-clock starvation.",
         ref="§5 C05"),
     "C06": dict(
         technique="path call-count dataflow over branch-condition atoms (A2) plus who-may-call (A1) on resolved call sites",
@@ -75,7 +77,7 @@ CLAIMS = {
              "exactly once, zero times on masked, skipped and user-overridden paths; that step-like methods are called from no other site; "
              "that the value handed on is the result of that one call and carries the tick's sequence number; that the supervisor's wrapper "
              "is redirected to the synchronizer, which never runs the step; that the wrapper's step chain is only ever rebound to its own jit / AOT-compiled "
-             "form, and only under jit_step. Not decided: XLA duplicating/eliminating effects, vmapped execution.",
+             "form, and only under jit_step; the compiled schedule (slot fill, horizon = supervisor steps present in every episode). Not decided: XLA duplicating/eliminating effects, vmapped execution.",
         ref="§5 C06"),
     "C07": dict(
         technique="enum/branch exhaustiveness, ordering-abstraction tables of the edge / attachment / window-selection predicates, role typing of the schedule fill, ordering of generation execution",
@@ -110,7 +112,8 @@ CLAIMS = {
              "delay == ts_end - ts_start in both clock branches, header ts == ts_end, adjusted ts under the wall clock), the next step starts from the "
              "returned state; nothing derived from record settings / record state reaches a queue operation, _submit, step argument, buffer or state "
              "update; record templates are -1 filled, rows are written at the slot's sequence number, a masked slot and a skipped supervisor step write back the row read at that "
-             "index; with a record update_state returns the record-free result with only the record's output leaf replaced; step records stop at max_records. Not decided: dtype/shape fidelity.",
+             "index; with a record update_state returns the record-free result with only the record's output leaf replaced; the row of a skipped step carries no "
+             "output; the record has one row per scheduled run over all partitions; step records stop at max_records. Not decided: dtype/shape fidelity.",
         ref="§5 C13"),
     "C14": dict(
         technique="role typing of conversion projections, sentinel table agreement (writer/reader of the -1 padding), leafwise indexing, set-membership guards of filter",
@@ -126,7 +129,8 @@ CLAIMS = {
              "default expected delay is quantile(0.99) and asserted non-negative; every constructor parameter is restored by from_info / "
              "connect_from_info from exactly the info field that was written from it (incl. the shadow input name and the output node); "
              "phase = max(0, non-skipped input phases), Connection.phase = sender phase_output + delay, phase_output = phase + delay, infos read "
-             "the properties; the algebraic-loop handler re-raises on every path. Not decided: whether a changed delay reaches an already warmed-up async graph.",
+             "the properties; the algebraic-loop handler re-raises on every path; connect always registers the connection it built; the wrappers read the phase "
+             "at every episode start. Not decided: whether a changed delay reaches an already warmed-up async graph.",
         ref="§5 C16"),
     "C10": dict(
         technique="integer/max-plus normal forms of the window arithmetic, must-pass-through of the saturating clip, provenance of the generation-time delay, ordering-abstraction table of the arrival predicate, writer/reader table agreement of interp modes",
@@ -143,7 +147,8 @@ CLAIMS = {
         text="Acyclicity and the sampled distributions are not decided. Decided: ts_start(0) = phase, ts_end = ts_start + sampled delay, ts_start(k+1) = "
              "max(ts_end, ts_start + 1/rate), rng split linearly, seq = -1 iff ts_end > horizon; a receiver step is accepted for a message iff start >= arrival "
              "(> if skipped), identically in the search loop and the final test, unassigned -> -1; messages of vertices beyond the horizon / never sent carry -1, "
-             "ts_recv = sender ts_end + sampled delay; augment generates a vertex set / edge exactly when its key is missing and stores it under that key; "
+             "ts_recv = sender ts_end + sampled delay; augment generates a vertex set / edge exactly when its key is missing and stores it under that key, and removes exactly the episode "
+             "axis it added; the delay table holds each connection's own distribution; "
              "advance, PHASE, blocking and BUFFER raise before anything is generated.",
         ref="§5 C12"),
     "C15": dict(
@@ -153,7 +158,7 @@ CLAIMS = {
              "/ mean / pdf have no outside effect; Deterministic.quantile = mean, Normal.quantile = ndtri(q) scale + loc, trainable = min + alpha (max - min), "
              "mixtures delegate to the grid routine on their own distribution (whose structure is checked: CDF evaluated on the grid the result indexes, "
              "first grid point with cdf > p, weighted component fallback, span check raises), unknown distributions raise; default expected delay = quantile(0.99), asserted "
-             "non-negative; zero-spread data is exported as Deterministic(mean), otherwise a mixture with normalised weights and rescaled components whose weights, means and scales go through the same sort / pruning. "
+             "non-negative; zero-spread data is exported as Deterministic(mean), otherwise a mixture with normalised weights and rescaled components whose weights, means and scales go through the same sort / pruning; standardisation and _rescale are inverse. "
              "Not decided: the mixture grid quantile's accuracy, fitted values.",
         ref="§5 C15"),
     "C17": dict(
@@ -169,11 +174,12 @@ CLAIMS = {
         text="Decides: in the CEM update raw losses are only used inside where(isnan(l), inf, l), the evolutionary step tells the strategy the sanitised fitness of the "
              "asked population; every CEM sample is clip(mean + stdev * noise, u_min, u_max) and the strategy gets clip_min/max = flattened u_min/u_max; the best "
              "index is the first of an ascending argsort of the sanitised losses, the stored loss is min(old, new) in every ordering case, candidate and loss are "
-             "selected by the same predicate, the initial best loss is +inf; cem() / evo() scan from the caller's state and thread the state returned by each step. Not decided: evosax internals, elite statistics.",
+             "selected by the same predicate, the initial best loss is +inf; cem() / evo() scan from the caller's state and thread the state returned by each step; cem_step evaluates and updates with exactly the "
+             "clipped samples; evo asks with the solver's strategy params; the update predicate compares the two losses only. Not decided: evosax internals, elite statistics.",
         ref="§5 C18"),
     "C19": dict(
         technique="provenance dataflow of Environment.step and the auto-reset pass-through, closed-form normal forms of the episode log for done in {0,1}, rational normal forms of squash/unsquash (declared pair tanh/arctanh), agreement of the three running-moment clones with Chan's formula",
-        text="Decides: action -> get_output -> graph.step with the supervisor's pre-step state, reward / flags from the stepped state, observation / info from the "
+        text="Decides: Environment.init starts at step 1 with only_init and at step 0 + graph.reset otherwise, with the same settings; action -> get_output -> graph.step with the supervisor's pre-step state, reward / flags from the stepped state, observation / info from the "
              "post-step state; auto-reset passes reward and flags through and swaps state / observation / info iff terminated or truncated; the log wrapper's "
              "closed form for done in {0,1}; unsquash(scale(x)) == x and scale(unsquash(y)) == y, range [low, high], clip otherwise; the three batch-moment "
              "updates equal Chan's parallel formula with jnp.mean / jnp.var over axis 0 and count = number of environments, normalisation uses the updated "
@@ -183,10 +189,10 @@ CLAIMS = {
         technique="table agreement of the activation maps, structural comparison of the manual forward pass with the flax module (layer indexes, activation placement, Gaussian head), flag agreement of normalisation call sites, provenance of the exported configuration",
         text="Numerical equality of nn.Dense(...).apply with the bound module is not decided. Decided: the Actor's activation chain and the Policy's table map the same "
              "four keys to the same flax functions; the Policy applies Dense_i + activation for i < n-1 from the normalised observation and Dense_{n-1} without "
-             "activation, parameters from model['actor']; std = exp(log_std) in both, the rng-less action is the mean; get_action = normalize(clip=True, "
+             "activation, parameters from model['actor']; std = exp(log_std) in both, the rng-less action is the mean, the Actor's first layer sees the network input itself; get_action = normalize(clip=True, "
              "subtract_mean=True) -> apply_actor(rng) -> unsquash with the flags of the training wrapper and the evaluation loop; the exported policy takes "
              "hidden_activation / state_independent_std from the config fields given to the Actor, 'gaussian' is the Actor's un-overridden default, model = "
-             "params['params'], scalings from the aux keys the wrappers write, wrapper stack order. STATE_INDEPENDENT_STD=False is not a trainable "
+             "params['params'], obs scaling = aux['norm_obs'], act scaling = aux['act_scaling'][..., 0, :] leafwise, the aux keys are the ones the wrappers write, wrapper stack order. STATE_INDEPENDENT_STD=False is not a trainable "
              "configuration (DESIGN.md §6) and is out of scope.",
         ref="§5 C20"),
 }
